@@ -1,3 +1,5 @@
+//go:build verif
+
 package props
 
 // pubsubfree — free-running concurrent ChanPubSub programs inside a synctest bubble (C06, C07).
@@ -106,7 +108,18 @@ func TestPubSubFree(t *testing.T) {
 			}
 			subs[i] = s
 		}
-		trace := []string{fmt.Sprintf("senders=%v", sy)}
+		// drawn yield bursts at the library's instrumentation points widen the few-instruction windows inside Send / Add
+		hookY := map[int]int{}
+		for _, p := range []int{bigbuff.VerifCasterArmed, bigbuff.VerifCasterNegAdded, bigbuff.VerifPubSubSendLocked, bigbuff.VerifPubSubNegDecided, bigbuff.VerifPubSubPongPhase} {
+			hookY[p] = rapid.SampledFrom([]int{0, 0, 0, 1, 2, 5, 20}).Draw(t, "hookYield")
+		}
+		bigbuff.VerifSetHook(func(p int) {
+			for i := hookY[p]; i > 0; i-- {
+				runtime.Gosched()
+			}
+		})
+		defer bigbuff.VerifSetHook(nil)
+		trace := []string{fmt.Sprintf("senders=%v hooks=%v", sy, hookY)}
 		for i, s := range subs {
 			trace = append(trace, fmt.Sprintf("s%d=%v", i, *s))
 		}
